@@ -74,6 +74,7 @@ type Conn struct {
 	// quiet even if a reader is already parked (the session's serve loop starts reading before
 	// the setup worker has written the CONNACK)
 	onWrite          func()
+	onWritten        func([]byte) bool
 	stallWrites      bool
 	writeBlocked     bool
 	hasWriteDeadline bool
@@ -159,6 +160,17 @@ func (c *Conn) OnNextWrite(f func()) {
 	c.mu.Unlock()
 }
 
+// OnWritten installs a hook that is offered every chunk the broker has written to this
+// connection, right after the client side received it and before the broker's Write returns,
+// outside the connection's lock; it is removed once it returns true. With it a script can act at
+// the very moment a client holds an answer (the SUBACK, say) - the earliest moment any other
+// client could react to it.
+func (c *Conn) OnWritten(f func(p []byte) bool) {
+	c.mu.Lock()
+	c.onWritten = f
+	c.mu.Unlock()
+}
+
 func (c *Conn) Write(p []byte) (int, error) {
 	c.mu.Lock()
 	if f := c.onWrite; f != nil {
@@ -193,6 +205,14 @@ func (c *Conn) Write(p []byte) (int, error) {
 	c.bump()
 	c.writeSeq++
 	c.cond.Broadcast()
+	if f := c.onWritten; f != nil {
+		c.mu.Unlock()
+		done := f(p)
+		c.mu.Lock()
+		if done {
+			c.onWritten = nil
+		}
+	}
 	if c.noteWritten(p) && c.onPartial != nil {
 		f, seq := c.onPartial, c.writeSeq
 		c.PartialWrites++
